@@ -202,3 +202,132 @@ theorem historyTable_eq_scan (tname : String) (ts : List Sel) (env : Rd) (c : Cu
     | error e => rfl
     | ok q => rfl
 end Proofs.SeriesTimes
+
+namespace Proofs.SeriesTimes
+open Py Model Model.Listing
+
+/-- visiting the positions in turn fails with `e` exactly when the read at some position `j` fails with `e` and the reads at
+    all earlier positions returned -/
+theorem visitAll_error_iff (f : Pos × Bool → Nat → Except LErr (List (Nat × FVal))) (ps : List (Pos × Bool)) (i : Nat) (e : LErr) :
+    visitAll f ps i = .error e ↔
+      ∃ j pb, ps[j]? = some pb ∧ f pb (i + j) = .error e ∧
+        ∀ j' pb', j' < j → ps[j']? = some pb' → ∃ h, f pb' (i + j') = .ok h := by
+  induction ps generalizing i e with
+  | nil => simp [visitAll]
+  | cons pb more ih =>
+    simp only [visitAll]
+    cases hf : f pb i with
+    | error e' =>
+      simp only
+      constructor
+      · intro h; injection h with h; subst h
+        exact ⟨0, pb, rfl, by simpa using hf, fun j' _ hj' => absurd hj' (Nat.not_lt_zero _)⟩
+      · intro ⟨j, pb', hj, hfe, hbefore⟩
+        cases j with
+        | zero =>
+          simp only [List.getElem?_cons_zero, Option.some.injEq] at hj; subst hj
+          rw [Nat.add_zero, hf] at hfe; injection hfe with hfe; rw [hfe]
+        | succ j =>
+          obtain ⟨h, hh⟩ := hbefore 0 pb (by omega) rfl
+          rw [Nat.add_zero, hf] at hh; cases hh
+    | ok h0 =>
+      simp only
+      cases hv : visitAll f more (i + 1) with
+      | error e' =>
+        have := (ih (i + 1) e').mp hv
+        constructor
+        · intro h; injection h with h; subst h
+          obtain ⟨j, pb', hj, hfe, hbefore⟩ := this
+          refine ⟨j + 1, pb', by simpa using hj, by rw [← hfe]; congr 1; omega, ?_⟩
+          intro j' pb'' hj' hget
+          cases j' with
+          | zero => simp only [List.getElem?_cons_zero, Option.some.injEq] at hget; subst hget; exact ⟨h0, by simpa using hf⟩
+          | succ j' =>
+            obtain ⟨h, hh⟩ := hbefore j' pb'' (by omega) (by simpa using hget)
+            exact ⟨h, by rw [← hh]; congr 1; omega⟩
+        · intro ⟨j, pb', hj, hfe, hbefore⟩
+          cases j with
+          | zero =>
+            simp only [List.getElem?_cons_zero, Option.some.injEq] at hj; subst hj
+            rw [Nat.add_zero, hf] at hfe; cases hfe
+          | succ j =>
+            have : visitAll f more (i + 1) = .error e := (ih (i + 1) e).mpr ⟨j, pb', by simpa using hj,
+              by rw [← hfe]; congr 1; omega, fun j' pb'' hj' hget => by
+                obtain ⟨h, hh⟩ := hbefore (j' + 1) pb'' (by omega) (by simpa using hget)
+                exact ⟨h, by rw [← hh]; congr 1; omega⟩⟩
+            rw [hv] at this; exact this
+      | ok r =>
+        simp only
+        constructor
+        · intro h; cases h
+        · intro ⟨j, pb', hj, hfe, hbefore⟩
+          cases j with
+          | zero =>
+            simp only [List.getElem?_cons_zero, Option.some.injEq] at hj; subst hj
+            rw [Nat.add_zero, hf] at hfe; cases hfe
+          | succ j =>
+            have : visitAll f more (i + 1) = .error e := (ih (i + 1) e).mpr ⟨j, pb', by simpa using hj,
+              by rw [← hfe]; congr 1; omega, fun j' pb'' hj' hget => by
+                obtain ⟨h, hh⟩ := hbefore (j' + 1) pb'' (by omega) (by simpa using hget)
+                exact ⟨h, by rw [← hh]; congr 1; omega⟩⟩
+            rw [hv] at this; cases this
+
+/-- a history() call fails with `e` (an exception, or `diverges`) exactly when converting the selection fails with `e`, or the
+    selection is non-empty and visiting the result positions in turn fails with `e` -/
+theorem historyC_error_iff (items : List Item) (short : Bool) (env : Rd) (c : Cur) (e : LErr) :
+    historyC items short env c = .error e ↔
+      orderedSelection env items = .error e ∨
+      ∃ tsel, orderedSelection env items = .ok tsel ∧ tsel.isEmpty = false ∧
+        visitAll (valuesAt env tsel short (fileTablesOf env) env) (resultPositions env) 0 = .error e := by
+  unfold historyC
+  cases hos : orderedSelection env items with
+  | error e' =>
+    simp only
+    constructor
+    · intro h; injection h with h; subst h; exact .inl rfl
+    · intro h
+      rcases h with h | ⟨tsel, h, _⟩
+      · injection h with h; subst h; rfl
+      · cases h
+  | ok tsel =>
+    simp only
+    have hb := historyBody_eq env tsel short env c
+    cases hemp : tsel.isEmpty with
+    | true =>
+      simp only [if_true]
+      constructor
+      · intro h; cases h
+      · intro h
+        rcases h with h | ⟨tsel', h, h2, _⟩
+        · cases h
+        · injection h with h; subst h; rw [hemp] at h2; cases h2
+    | false =>
+      simp only [Bool.false_eq_true, if_false]
+      cases hbody : historyBody env tsel short env c with
+      | error e' =>
+        rw [hbody] at hb
+        simp only
+        constructor
+        · intro h; injection h with h; subst h
+          refine .inr ⟨tsel, rfl, hemp, ?_⟩
+          cases hv : visitAll (valuesAt env tsel short (fileTablesOf env) env) (resultPositions env) 0 with
+          | error e'' => rw [hv] at hb; simp only [Except.map] at hb; injection hb with hb; rw [hb]
+          | ok r => rw [hv] at hb; simp only [Except.map] at hb; cases hb
+        · intro h
+          rcases h with h | ⟨tsel', h, _, h3⟩
+          · cases h
+          · injection h with h; subst h
+            rw [h3] at hb; simp only [Except.map] at hb; injection hb with hb; rw [hb]
+      | ok q =>
+        obtain ⟨hits, c1⟩ := q
+        rw [hbody] at hb
+        simp only
+        constructor
+        · intro h; cases h
+        · intro h
+          rcases h with h | ⟨tsel', h, _, h3⟩
+          · cases h
+          · injection h with h; subst h
+            rw [h3] at hb; simp only [Except.map] at hb; cases hb
+
+end Proofs.SeriesTimes
